@@ -75,6 +75,12 @@ NOTES = {
  "C06-seed7": "missed by C06 as it stood (workbook protection was one lock flag) but caught by C15 (revisions verifier); C06 catches it since the space `protection-fields` sets every SUBSET of the 13 workbook-protection fields (8191 cases, every field with a value of its own so that a neighbour's value shows) and every single field, pair of fields and all 21 fields of the sheet protection",
  "C07-seed7": "missed by C07 as it stood (no row or column DIMENSION of its seeds had a style, so a cell that wrongly inherits one could not show); caught since the dense, annotated and second-sheet seeds have styled row and column dimensions (with and without a height / width), the reference grid carries the style with the dimension through inserts and removals, and the observation reads it back",
  "C10-seed7": "missed by C10 as it stood (every move / copy / insert / remove of the alphabet had a non-zero argument); caught since the alphabet has the degenerate but legal calls move_range(.., 0, 0), copy_range(.., 0, 0), insert_new_row(p, 0) and remove_column(p, 0)",
+ "C11-seed7": "missed by C11 (and C12, C02) as they stood: no initial file had a part reachable from two sheets; caught since (a) the generator family `multi` has the case shared-pivot-cache (two sheets whose pivot tables are built on one cache definition with its own .rels and records, what Excel writes for a copied pivot table), used by C11 as a `foreign:` initial file, and (b) the validator demands of EVERY part that each attribute in the relationships namespace (r:id, r:embed, r:link ...) names a relationship the part's own .rels declares",
+ "C12-seed7": "missed by C12 as it stood (no history overwrote a text with the same characters) but caught by C01 (overwrite space: a text overwritten through set_value keeps the wrong kind); C12 catches it since the space `retyped` has the markers `2024 as text` and `2024 through set_value` (the cell then holds the number, the workbook no text at all): the string must be gone from the package",
+ "C14-seed7": "missed by C14 (it injects no faults: every save of its spaces runs on a healthy file system) but caught by C13 as it stood, whose RLIMIT_FSIZE / failing-write enumeration covers the password savers and demands of every save that reports success a file that decrypts to the package; fault injection belongs to engine E4 and is not duplicated in C14",
+ "C15-seed7": "missed by C15's quick tier as it stood (passwords with edge white space were thorough-tier only: `password ` and ` `); caught since the base alphabet of C14/C15 has ` edge blanks\\r\\n` (and the thorough one an ideographic space and a tab around CJK text)",
+ "C16-seed7": "missed by C16 as it stood: no configuration had a chart over unloaded sheets, and all clones had the same sheet list; caught since the configuration 2-lazy-clones-chart-over-raw-sheets-one-without-first-sheet exists (a loaded sheet with a line chart over two still-unloaded sheets; clone B has removed the first sheet, so every sheet position differs between the clones) and its oracle compares every part that does not depend on string-registration order (everything but sharedStrings.xml and the sheet parts) byte for byte with what the same workbook writes when it saves alone",
+ "C20-seed7": "missed by C20 as it stood (every non-ASCII word was representable in the selected encoding); caught since the sheet specifications `unmappable:1..6` put a text with four emoji - representable in no legacy encoding - into 1 to 6 cells with plain neighbours and two plain rows after them: what stands in for the characters is not pinned, but the field must still begin and end as the text does and every other field and record must be exact",
  "C12-seed6": "missed by C12 as it stood (no cell of its histories was a formula) but caught by C11 (corpus files with text formulas); C12 catches it since the space `formula-text` runs the history tree with a marker that reaches its cell as the cached text of a formula (a t=\"str\" cell): its <v> must hold the text, and the text must not turn up in sharedStrings.xml",
  "C14-seed6": "missed by C14 as it stood (every save ran alone; the first verify.log entry shows `suspension-point-not-reached` only because the overlap space was already being written while the hook it needs was not yet in /repo - that is not a detection). Caught since (a) /repo has two guarded hook points inside helper::crypt::encrypt (compound file created / completely written; patch.diff is the change rebased onto that commit, patch-at-65ea4d2.diff the original) and (b) C14 has the space `overlap`: save A suspended at either point, save B (other entry point, other password, other package, same directory) run to completion there, both files judged for their OWN password and package - 3 x 2 x 3 cases, deterministic; C13's overlap space got the same two suspension points and an encrypted B",
  "C16-seed6": "NOT DECIDED by C16 as it stood within 20 minutes (run stopped by hand, exit 137 in the first verify.log entry): the change adds three lock operations per save, each with a hook point as the convention demands, and the COMPLETE exploration of the 2-saver configurations grows combinatorially with them. Caught in 4 s since C16 runs iterative context bounding: a first space with every completely explored configuration at <= 2 preemptions, and the engine skips the remaining spaces when a `first:` space already reports violations (patch.diff is the change rebased onto the commit that added hook sites 13/14, patch-at-65ea4d2.diff the original)",
